@@ -87,7 +87,15 @@ void harness(void)
   M_parse_fails        = vp_bool();
   alen                 = vp_range(0, 2);
 
+#ifdef M_OOM
+  /* C14: the M_OOM-th allocation inside the step fails */
+  vp_alloc_calls   = 0; /* harness-owned counter: restart it so that the failing index is a constant */
+  vp_alloc_fail_at = M_OOM; /* concrete per job: a symbolic failing allocation ran the solver out of 16 GB */
+#endif
   st = process_answer(&M_ch, pkt, alen, connA, &M_now, &requeue);
+#ifdef M_OOM
+  vp_alloc_fail_at = 0;
+#endif
 
   /* ---------- reference ---------- */
   case_ok  = (name_kind == 0) || (name_kind == 1 && !((M_ch.flags & ARES_FLAG_DNS0x20) && !q_tcp));
@@ -103,6 +111,18 @@ void harness(void)
   if (on_other && accepted) {
     VP_ASSERT(M_cb_count[tok] == 0 && M_cached == 0 && RQ_calls == 0 && ares_array_len(requeue) == 0 && srv->consec_failures == fail0,
               "FINDING stale_conn_reply: a reply arriving on a connection the request is no longer assigned to supplies nothing to it");
+  }
+#endif
+#ifdef M_OOM
+  /* C14: the allocation failure may fail the REQUEST, with exactly one ARES_ENOMEM completion and the request released
+   * (q must not be touched any more); every other outcome is judged by the ordinary rules below. */
+  if (st == ARES_ENOMEM && M_cb_count[tok] != 0) {
+    VP_ASSERT(accepted, "only an accepted response can fail the request");
+    VP_ASSERT(M_cb_count[tok] == 1 && M_cb_status[tok] == ARES_ENOMEM, "the affected request reports the allocation failure, once");
+    VP_ASSERT(ares_htable_szvp_get_direct(M_ch.queries_by_qid, qid) == NULL && ares_array_len(requeue) == 0 && M_cached == 0,
+              "the failed request is gone: not indexed, not queued for resend, not cached");
+    VP_WITNESS("request failed with ENOMEM");
+    goto out;
   }
 #endif
   nrq = 0;
@@ -153,6 +173,26 @@ void harness(void)
     }
     VP_ASSERT(st == ARES_SUCCESS || st == ARES_ENOMEM, "an accepted response never tears the connection down");
   }
+  /* no orphan: a request that has not completed is either still in flight on a connection (so the connection's error
+   * handling or its deadline will retry or fail it) or recorded for the resend flush (or handed to ares_requeue_query,
+   * whose own contract is obligation O2).  Otherwise nothing would ever retry or fail it. */
+#ifdef KFONLY_requeue_oom_orphan
+  VP_ASSUME(M_cb_count[tok] == 0 && nrq == 0 && q->conn == NULL);
+#endif
+#ifndef KF_requeue_oom_orphan
+  if (M_cb_count[tok] == 0 && nrq == 0) {
+    int queued = 0;
+    for (k = 0; k < (int)ares_array_len(requeue) && k < 2; k++) {
+      const ares_requeue_t *e = ares_array_at_const(requeue, (size_t)k);
+      if (e != NULL && e->qid == qid) queued = 1;
+    }
+    VP_ASSERT((q->conn != NULL && q->node_queries_to_conn != NULL && q->node_queries_by_timeout != NULL) || queued,
+              "FINDING requeue_oom_orphan: an uncompleted request is still in flight or queued for resend, never dropped from both");
+  }
+#endif
+#ifdef M_OOM
+out:
+#endif
   VP_ASSERT(vsock[connA->fd].state == 1 && vsock[connB->fd].state == 1, "process_answer never closes a connection");
   VP_ASSERT(ares_conn_from_fd(&M_ch, connA->fd) == connA, "the connection under read stays registered");
   ares_array_destroy(requeue);
